@@ -129,3 +129,39 @@ example : (run .waiterFirst {} [.lock, .lookWaiter, .readStore, .decide, .lock, 
 example : (run .waiterFirst {} [.lock, .lookWaiter, .readStore, .decide, .engineRunning, .engineTerminal true, .engineRelease,
     .lock, .lookWaiter, .readStore, .decide]).map (fun s => (s.execs, s.stored)) = some (1, .completed) := by decide
 end Coercion.ApiFine
+
+namespace Coercion.ApiFine
+open Coercion
+
+/-- a Start that gets as far as its decision on a plan that has already been executed is refused and changes nothing but its own pc -/
+theorem decide_rejects_executed (s : S) (st : Status) (stl : Bool) (h : Inv s) (he : s.execs = 1) (hp : s.pc = .haveRead st stl) :
+    step .waiterFirst s .decide = some ({ s with pc := .idle }, .rejected) := by
+  have hne : st ≠ .notStarted := fun hns => by have := h.read st stl hp hns; omega
+  simp [step, hp, hne]
+
+/-- a Start that finds a waiter is refused at once -/
+theorem lookup_rejects_running (s : S) (hw : s.waiter = true) (hp : s.pc = .entered) :
+    step .waiterFirst s .lookWaiter = some ({ s with pc := .idle }, .rejected) := by
+  simp [step, hp, hw]
+
+/-- a Start whose read saw a stale submission is refused -/
+theorem decide_rejects_stale (s : S) (st : Status) (hp : s.pc = .haveRead st true) :
+    step .waiterFirst s .decide = some ({ s with pc := .idle }, .rejected) := by
+  simp [step, hp]
+
+/-- no step of a Start other than the spawning decision changes storage, the waiter or the execution count -/
+theorem start_steps_change_nothing (s s' : S) (l : Label) (r : Ret) (hl : l = .lock ∨ l = .lookWaiter ∨ l = .readStore)
+    (hs : step .waiterFirst s l = some (s', r)) : s'.stored = s.stored ∧ s'.waiter = s.waiter ∧ s'.execs = s.execs ∧ s'.stale = s.stale := by
+  obtain ⟨stored, waiter, execs, stale, pc⟩ := s
+  rcases hl with rfl | rfl | rfl
+  · simp only [step] at hs
+    by_cases hp : pc = .idle
+    · simp [hp] at hs; obtain ⟨rfl, _⟩ := hs; simp
+    · simp [hp] at hs
+  · cases pc <;> simp [step] at hs
+    case entered =>
+      cases waiter <;> simp at hs <;> obtain ⟨rfl, _⟩ := hs <;> simp
+  · cases pc <;> simp [step] at hs
+    case sawNoWaiter => obtain ⟨rfl, _⟩ := hs; simp
+
+end Coercion.ApiFine
